@@ -603,3 +603,27 @@ def spec_layouts(ctx, repo):
     c = hm.cls("table__h_m_t_x")
     lm = try_fold(c.attrs.get("longMetricFormat")) if "longMetricFormat" in c.attrs else None
     ctx.ob("SPEC-LAY", c.where, f"longMetricFormat = {lm!r} (uint16 advance, int16 side bearing)", lm == "Hh")
+
+
+def fvar_optional_psname(ctx, repo):
+    ctx.rule("OPT-FIELD", "fvar: the optional per-instance postScriptNameID column is written when ANY instance has one (existential test); a universal test drops the names of fonts where only some instances carry one", floor=1)
+    mod = repo.mod("ttLib/tables/_f_v_a_r.py")
+    f = mod.func("table__f_v_a_r.compile")
+    st = next((s for s in walk_no_nested(f.node) if isinstance(s, ast.Assign) and norm(s.targets[0]) == "includePostScriptNames"), None)
+    if st is None:
+        raise AnalysisError("fvar.compile no longer computes includePostScriptNames")
+    v = st.value
+    neg = False
+    if isinstance(v, ast.UnaryOp) and isinstance(v.op, ast.Not):
+        neg, v = True, v.operand
+    ok = False
+    if isinstance(v, ast.Call) and call_name(v) in ("any", "all") and v.args and isinstance(v.args[0], (ast.GeneratorExp, ast.ListComp)):
+        elt = v.args[0].elt
+        if isinstance(elt, ast.Compare) and len(elt.ops) == 1 and try_fold(elt.comparators[0]) == 0xFFFF and "postscriptNameID" in norm(elt.left):
+            existential_has = call_name(v) == "any" and isinstance(elt.ops[0], ast.NotEq) and not neg
+            not_all_missing = call_name(v) == "all" and isinstance(elt.ops[0], ast.Eq) and neg
+            ok = existential_has or not_all_missing
+    ctx.ob("OPT-FIELD", f.where, norm(st)[:110], ok, "" if ok else "instances with a PostScript name lose it unless every instance has one")
+
+
+C02_EXTRA.append(fvar_optional_psname)
